@@ -1,5 +1,5 @@
 """C04 - garbage is reclaimed and a finished run leaves nothing behind."""
-import vlib, runcorr, gccheck
+import vlib, runcorr, gccheck, progcheck
 
 COQ_TARGETS = ["props/C04.vo", "corr/CorrGC.vo", "corr/CorrRun.vo"]
 RULE = ("(a) operation sequences on the collector as in C03, judged by: after every collection the managed set is "
@@ -20,7 +20,10 @@ def run(ctx, log):
     prefix = [(k, []) for k in ["A", "A", "F"]]
     seqs += list(gccheck.enum_sequences(prefix, 2, 3))
     gccheck.run_sequences(ctx, seqs, log, "C04")
-    progs = list(gccheck.ALLOC_CORPUS) + gccheck.gen_alloc_programs(rng, 200 if ctx.quick else 2000)
+    # front-end failures after heap literals: whatever the compiler allocated for them is released exactly once too
+    front_fail = ["1.5; onbekend", "stel a = \"tekst\"; stel b = 2.5; stop", "[1.5, \"x\"]; antwoord 1", "print(\"{}\", 0.5); functie f() { \"s\"; nergens }",
+                  "stel s = \"a\"; s[0] = \"b\"; 2.5 +", "\"abc\" \"def\" 1.25 )", "zolang onbekend { 1.5 }", "functie f(a) { 2.5; stop } f(1)"]
+    progs = list(gccheck.ALLOC_CORPUS) + front_fail + progcheck.alloc_stress_family()[:9] + gccheck.gen_alloc_programs(rng, 200 if ctx.quick else 2000)
     full = vlib.nlh("eval", ["100000 " + vlib.hexs(s) for s in progs], tag="c04f")
     limit = 150 if ctx.quick else 2000
     cases = []      # (program index, k)
